@@ -163,6 +163,11 @@ def decide(db, func, buffers, static_conds=None, max_depth=3, assume=None, fixed
         for si, need in ctxs.items():
             need = frozenset(n for n in need if n in entry)
             clusters.setdefault(need, []).append(si)
+        clr_atoms = set(nd[6].get("clr") for nd in P.flatten(prog) if nd[0] == "loop" and nd[6].get("clr"))
+        for si, need in ctxs.items():
+            gen = set(n for n in need if "@" in n)
+            # a generalised state is a real state when it only involves counters of counting loops (see prog.counting_var)
+            sites[si].exact_general = bool(gen) and gen <= clr_atoms
         for s in sites:
             s.p1 = {"t": 0, "f": None, "n": None}
             s.p2 = {"t": 0, "f": None, "n": None}
@@ -182,7 +187,7 @@ def decide(db, func, buffers, static_conds=None, max_depth=3, assume=None, fixed
                 inv_c = [iv for iv in invs if set(T.atoms(iv)) <= set(allv)]
                 for m in T.models(allv, inv_c, constants=consts, limit=120000):
                     nmodels += 1
-                    _collect(P.run(prog_i, m, general=True), sites, m, True, set(members))
+                    _collect(P.run(prog_i, m, general=True, data_free=True), sites, m, True, set(members))
         for s in sites:
             if s.p1["f"] is not None:
                 s.verdict, s.witness = "REFUTED", s.p1["f"]
@@ -220,7 +225,10 @@ def _collect(tr, sites, m, general, members):
             if rec["n"] is None:
                 rec["n"] = T.show_model(m)
         else:
-            if general or unc:
+            if general and not unc and getattr(s, "exact_general", False):
+                if s.p1["f"] is None:
+                    s.p1["f"] = T.show_model(m) + " (loop counters range over [init, bound): every such iteration is reached for suitable element values)"
+            elif general or unc:
                 if s.p2["f"] is None:
                     s.p2["f"] = T.show_model(m)
             elif rec["f"] is None:
